@@ -16,8 +16,9 @@ RULE = ('line sequences built by the harness from K messages (1..9 fragments, ra
         'lines, foreign NMEA lines and malformed lines, plus the boundary sequences of DESIGN.md section 5; every sequence goes '
         'through IterMessages, ByteStream, BinaryIOStream, FileReaderStream, SocketStream (scripted recv) and NMEAQueue, with and '
         'without a TagBlockQueue; a case = (front-end, tbq, terminator, line list); distinct = distinct such tuples; thorough tier '
-        'adds all arrival orders of small message sets')
-ASSUMPTIONS = ['the model receives the per-line outcome of the REAL NMEASentenceFactory.produce / TagBlockQueue.put_sentence '
+        'adds all arrival orders of small message sets' + sc.RULE_BOUNDED)
+ASSUMPTIONS = [sc.ASSUMPTION_BOUNDED,
+               'the model receives the per-line outcome of the REAL NMEASentenceFactory.produce / TagBlockQueue.put_sentence '
                '(the byte-level parser and the tag block queue are separate layers); the theorems quantify over these outcomes',
                'fragment count 0 / non-positive fragment numbers (IndexError in both loops) belong to C05 and are outside the '
                'schedules of C03; the model shows them, the correspondence check covers them']
